@@ -1217,7 +1217,8 @@ def _pipeline_worker(job):
     for s in full:
         cfg = s["cfg"]
         if cfg["norm"]:
-            if tier == "thorough" and not (phase == "transforms" and length > 2):
+            # the longest histories (two transformations, three kriging calls) get one flavour each
+            if tier == "thorough" and not (length > 2 and (phase == "transforms" or kind == "Krige")):
                 flavours = FLAVOURS
             else:
                 flavours = (FLAVOURS[zlib.crc32(repr(tlaval.freeze(s["hist"])).encode()) % len(FLAVOURS)],)
@@ -1369,7 +1370,8 @@ def run(pid, tier, seed, replay=None):
     if pid == "C18":
         rule = ("Pipeline: every maximal call history TLC enumerates per object kind x (mean none/const/callable, normalizer "
                 "on/off, trend none/const/callable) x scalar/vector x mesh type x kriging flavour (quick: a seeded sample of at "
-                "most 2500 histories per TLC job, one normalizer flavour per history; thorough: all, three flavours); every step "
+                "most 2500 histories per TLC job, one normalizer flavour per history; thorough: all, three flavours, except one "
+                "flavour for the three-call kriging histories); every step "
                 "compares the real array with the documented term evaluated by the driver.  Pointwise: every case of the exact "
                 "pair table and of the domain table.  distinct non-trivial = distinct (object, configuration, flavour, call "
                 "prefix) whose documented value is at least half finite and was matched, plus distinct table configurations")
